@@ -251,6 +251,10 @@ def check(case):
         if s["op"] == "getitem":
             # an integer-list index together with np.newaxis in one __getitem__ (indexing defect that belongs to C20)
             sig["list_and_newaxis"] = "newaxis" in s["index"] and any(isinstance(e, dict) and "list" in e for e in s["index"])
+        # an operand of this step has an axis of length 1 that is split into several chunks (i.e. carries zero-size chunks; strided
+        # slicing such as x[:-1:2] leaves them behind): the input class of the unify_chunks defect listed as len1-axis-zero-size-chunk
+        operands = [r] + ([inputs_da[s["input"]]] if isinstance(s.get("input"), int) else [])
+        sig["len1_axis_zero_chunk"] = any(n == 1 and len(c) > 1 for o in operands for n, c in zip(o.shape, o.chunks))
         done.append(s["op"])
         with impl(f"step {k} {s}", **sig), np.errstate(all="ignore"):
             r = step(da, r, s, inputs_da, True)
@@ -349,6 +353,11 @@ def draw_step(draw, x, inputs, unknown, zc=False):
                 b = draw(st.one_of(st.none(), st.integers(-n, n)))
                 c = draw(st.sampled_from([None, 1, 2, 3, -1, -2]))
                 index.append({"slice": [a, b, c]})
+        if fancy_used:
+            # An integer and a list in one index are both "advanced" for NumPy, which then moves the indexed dimension first when
+            # they are not adjacent; dask keeps it in place (listed under C20: advanced-dim-not-moved-first).  The generator tracks
+            # shapes with NumPy, so the two must not diverge here: integers become length-1 slices when a list is present.
+            index = [{"slice": [e, e + 1 if e != -1 else None, None]} if isinstance(e, int) else e for e in index]
         if draw(st.integers(0, 3)) == 0 and len(index) > 1:
             cut = draw(st.integers(0, len(index) - 1))
             index = index[:cut] + ["..."]
